@@ -13,7 +13,7 @@ echo "demo on clean tree: exit $(run_demo) (want 0)"
 git -C "$W" apply "$SRC/patch.diff" || { echo "PATCH DOES NOT APPLY"; git -C /repo worktree remove --force "$W"; exit 3; }
 echo "demo on patched tree: exit $(run_demo) (want 1)"
 if [ -z "$SKIP_TESTS" ]; then
-  (cd "$W" && PYTHONHASHSEED=0 PYTHONPATH="$W/src:/verif/shims" timeout 2400 /venv/bin/python -m pytest -q -p no:cacheprovider --timeout=600 -n 8 tests 2>&1 | grep -E "passed|failed|error" | tail -1)
+  (cd "$W" && LOKY_MAX_CPU_COUNT=2 PYTHONHASHSEED=0 PYTHONPATH="$W/src:/verif/shims" timeout 2400 /venv/bin/python -m pytest -q -p no:cacheprovider --timeout=600 -n 8 tests 2>&1 | grep -E "passed|failed|error" | tail -1)
   git -C "$W" checkout -- tests 2>/dev/null
 fi
 cd /verif
